@@ -54,6 +54,8 @@ type Contract struct {
 	Pkg      string
 	Props    []string
 	Requires []*Clause
+	ReadonlyIf *Clause // when it holds at entry the function writes no pre-existing frame-checked object; otherwise anything
+	Ghosts   []string  // logical variables: universally quantified integer constants of the contract
 	Assumes  []*Clause // assumed at entry, not checked at call sites (data-structure invariants; listed in evidence)
 	Ensures  []*Clause
 	Modifies []*Clause // each with Expr = location expression
@@ -70,7 +72,7 @@ type Contract struct {
 
 func (c *Contract) flag(s string) bool { return c != nil && c.Flags[s] }
 
-var clauseRe = regexp.MustCompile(`^(requires|ensures|invariant|decreases|modifies|let|props|loop|replay|pure|trusted|maypanic|nofunctional|readonly|runes|noframe|noerrprop|flags|assume|check)\b`)
+var clauseRe = regexp.MustCompile(`^(ghost|readonly-if|requires|ensures|invariant|decreases|modifies|let|props|loop|replay|pure|trusted|maypanic|nofunctional|readonly|runes|noframe|noerrprop|flags|assume|check)\b`)
 var labelRe = regexp.MustCompile(`^@([A-Za-z0-9_.\-]+)\s*`)
 var propsRe = regexp.MustCompile(`^\{([A-Z0-9, ]+)\}\s*`)
 
@@ -137,6 +139,8 @@ func parseContractFile(path, pkg string) ([]*Contract, error) {
 			cur.Requires = append(cur.Requires, cl)
 		case "assume":
 			cur.Assumes = append(cur.Assumes, cl)
+		case "readonly-if":
+			cur.ReadonlyIf = cl
 		case "ensures":
 			cur.Ensures = append(cur.Ensures, cl)
 		case "invariant":
@@ -186,9 +190,12 @@ func parseContractFile(path, pkg string) ([]*Contract, error) {
 			filePreds[pr.Name] = pr
 			continue
 		}
-		if curPred != nil && !strings.HasPrefix(tb, "func ") && cur == nil {
+		if curPred != nil && !strings.HasPrefix(tb, "func ") && !strings.HasPrefix(tb, "functype ") && cur == nil {
 			curPred.Text += " " + tb
 			continue
+		}
+		if strings.HasPrefix(tb, "functype ") {
+			tb = "func functype " + strings.TrimSpace(tb[len("functype "):])
 		}
 		if strings.HasPrefix(tb, "func ") {
 			curPred = nil
@@ -225,6 +232,8 @@ func parseContractFile(path, pkg string) ([]*Contract, error) {
 		switch m {
 		case "props":
 			cur.Props = strings.Fields(rest)
+		case "ghost":
+			cur.Ghosts = append(cur.Ghosts, strings.Fields(rest)...)
 		case "loop":
 			var n int
 			fmt.Sscanf(strings.TrimSuffix(rest, ":"), "%d", &n)
@@ -255,7 +264,7 @@ func parseContractFile(path, pkg string) ([]*Contract, error) {
 			}
 			pendingLoop = curLoop
 			pending = &Clause{Kind: m, Text: rest, Line: ln, File: path}
-		case "requires", "ensures", "modifies", "assume", "check":
+		case "requires", "ensures", "modifies", "assume", "check", "readonly-if":
 			pending = &Clause{Kind: m, Text: rest, Line: ln, File: path}
 		}
 	}
